@@ -67,6 +67,18 @@ CLAIMS = {
              "depth figures, and measured witnesses, are not decided.",
         tech=STATIC + "symbolic extraction of accounting rules as max-plus / linear forms, domination check against template images",
         engine="symx"),
+    "C12": dict(
+        cat="other",
+        text="Decides completely: the parameter algebra (eq / intersect / entails per field; lattice relations and "
+             "per-context values of the rustc-evaluated constants; Bitcoin limit constants), validate_pk's table, the "
+             "mixed-time-lock fold truth table. Decides structurally: polarity (tightening never admits more) and "
+             "switch<->defect<->error pairing of every validation switch / limit on decision trees extracted symbolically "
+             "from validate / validate_non_top_level for each of the 30 fragment kinds; every parameter is enforced; "
+             "per-context fragment and key tables; entry-point coverage and constructor discipline on MIR.",
+        note="Trusted: spec/limits.py; rustc THIR/MIR and constant evaluation. Defect predicates are assumed to compute "
+             "what their names say; typed infallible combinators are outside the claim.",
+        tech=STATIC + "symbolic decision-tree extraction with monotonicity (polarity) check, exact finite tables, MIR must-pass-through and who-may-construct",
+        engine="symx+tablex+cfgq"),
     "C19": dict(
         cat="other",
         text="Derived impls are structural by construction (census). For every hand-written Eq/Ord/Hash/Clone impl "
